@@ -202,7 +202,7 @@ func runCase(b *rt.Built, s *m.Service, meth *m.Method, c *caseRec) string {
 	hc.Stub = harness.StubSpec{HasResult: meth.Result != nil, Result: c.Result, View: "default"}
 	obs, err := b.H.Do(hc)
 	if err != nil {
-		return "INCONCLUSIVE harness: " + err.Error()
+		return "INCONCLUSIVE: harness: " + err.Error()
 	}
 	if obs.Err != "" {
 		return "harness could not run the case: " + obs.Err
@@ -225,7 +225,7 @@ func runCase(b *rt.Built, s *m.Service, meth *m.Method, c *caseRec) string {
 		}
 		obs2, err := b.H.Do(&harness.Case{Op: "raw", Raw: raw, Stub: hc.Stub})
 		if err != nil {
-			return "INCONCLUSIVE harness: " + err.Error()
+			return "INCONCLUSIVE: harness: " + err.Error()
 		}
 		if msg := judge(d, s, meth, c.Payload, obs2, false); msg != "" {
 			return fmt.Sprintf("route %d (%s %s): %s", c.Route, raw.Method, patterns[c.Route], msg)
@@ -257,7 +257,7 @@ func runCase(b *rt.Built, s *m.Service, meth *m.Method, c *caseRec) string {
 		hc2.Edits = []harness.Edit{e}
 		obs2, err := b.H.Do(&hc2)
 		if err != nil {
-			return "INCONCLUSIVE harness: " + err.Error()
+			return "INCONCLUSIVE: harness: " + err.Error()
 		}
 		if obs2.Err != "" {
 			return "harness could not run the case: " + obs2.Err
